@@ -1178,6 +1178,12 @@ def campaign_order(ck: Check, n: int) -> None:
 def known_findings(ck: Check) -> None:
     """Re-run the stored witness of every open finding on the real code."""
     for f in ck.findings:
+        if "refdefault" in f["witness"]:
+            from . import c05_refdefault
+
+            if c05_refdefault.witness_reproduces(ck, f):
+                ck.known(f["id"], f["what"])
+            continue
         if "inherit_group" in f["witness"]:
             from . import c05_inherit
 
@@ -1258,6 +1264,14 @@ def search_refs(ck: Check) -> None:
             return
 
 
+def search_refdefault(ck: Check) -> None:
+    """Targeted search: members that take their default from the root definition they refer to, under the options that
+    restructure references (collapse_root_models, reuse_model) — the whole family, every kind."""
+    from . import c05_refdefault
+
+    c05_refdefault.search(ck)
+
+
 def search_inherit(ck: Check) -> None:
     """Targeted search: inherited members re-listed by a subclass schema (all kinds, both TypedDict syntaxes)."""
     from . import c05_inherit
@@ -1269,10 +1283,12 @@ def search_inherit(ck: Check) -> None:
 
 
 def run(ck: Check) -> None:
-    from . import c05_groups, c05_inherit, c05_refs, c05_union
+    from ..translate import parse_passes
+    from . import c05_groups, c05_inherit, c05_refdefault, c05_refs, c05_union
 
     quick = ck.tier == "quick"
     ck.translate("FieldTemplates", field_templates.generate())
+    ck.translate("ParsePasses", parse_passes.generate())  # C09's table of the post-passes of Parser.parse (imported, not owned)
     ck.prove()
     ck.assumptions += [
         "abstract space: one member of scalar / array-of-scalar / dict-of-scalar type, or an anyOf / oneOf of scalar alternatives ({type: T}, {type: [T, null]}, OpenAPI {type: T, nullable: true}, {type: null}; at least one alternative has a type), or a $ref to an object definition (plain / type: [object, null] / OpenAPI nullable: true; default absent or null); const, default_factory extras, model-typed defaults and unions over containers or references are outside it",
@@ -1284,6 +1300,7 @@ def run(ck: Check) -> None:
         "use_default_kwarg only changes the spelling Field(x) → Field(default=x); checked syntactically, not part of the Lean model",
         "use_union_operator / use_standard_collections / use_generic_container_types are drawn at random by the end-to-end campaigns and are not part of the scalar model (it predicts the same member whatever they are; the one exception, pydantic 1 refusing Sequence[...] with max_items, is Model.Field.semG); for union-typed members use_union_operator is a model input (Model/FieldUnion.lean)",
         "type-hint level model (Model/FieldUnion.lean): hints are structured (parts of `X | Y`, trees of Optional[...]/Union[...]) over bracket-free type names; a type with an empty hint as an alternative of a union and the optional-Any rewriting of DataType.__init__ are outside its domain (character-level scanning of hints is C13's model)",
+        "members that take their default from the definition they refer to: the abstract pass semantics (Dcg/Model/ParsePasses, C09's, imported) knows roots by identity and defaults by identity of the value; that a scalar root definition's model carries the definition's default (parse_root_type) is the harness's encoding of the initial state, checked end to end by the model tie of the family (array / dict root definitions do not: finding C05-REF-CONTAINER-DEFINITION-DEFAULT); TypedDict is left out of this family (no defaults)",
         "cross-member independence is tested, not proved: the model has no state shared between members, so every sibling effect of the real code shows up as a model/code disagreement or as an oracle failure the model does not predict",
     ]
     camps = make_campaigns(ck)
@@ -1312,6 +1329,8 @@ def run(ck: Check) -> None:
     # `$ref`-typed members: a reference to a (nullable) object definition, in every definition order and across files
     c05_refs.campaign_refrule(ck, 400 if quick else 4000)
     run_batch(ck, camps, c05_refs.core_block() + (c05_refs.stratified(ck, 150) if quick else c05_refs.block(ck)))
+    # members that take their default from the root definition they refer to, under collapse_root_models / reuse_model
+    c05_refdefault.campaign(ck, quick)
     # inherited members re-listed as required by a subclass schema
     icamps = c05_inherit.make_campaigns(ck, camps)
     c05_inherit.run_batch(ck, icamps, c05_inherit.core_block(quick=quick) + c05_inherit.random_groups(ck, 150 if quick else 2500))
@@ -1321,10 +1340,11 @@ def run(ck: Check) -> None:
         "union_block": "union-typed members: core (all lists of <= 2 alternatives over {T, [T,null], null} x kind x spelling x required) always; thorough adds kind x lists of alternatives (<= 2 over two types and null, 3 over {T,[T,null],null,U}, OpenAPI lists with a nullable:true alternative) x spelling x required x {no default, null default} x strict-nullable with the other dimensions drawn",
         "ref_block": "$ref-typed members: kind x dialect x definition (plain / type list with null / OpenAPI nullable keyword) x where the definition stands (root-referrer, before, after, file loaded earlier / later, external file; OpenAPI: before / after) x required; always complete with options off (+ strict-nullable for OpenAPI); quick +300 stratified over all other dimensions; thorough: x default (none / null) x {strict-nullable, use-default, force-optional} x where `required` is written, rest drawn",
         "inherit_block": "inherited members: kind x where the subclass lists the inherited member (allOf owner / sibling item / item with properties) x second inherited member (plain / non-identifier key, re-listed or not) x own member (none / plain / non-identifier key) x chain (depth 1 both definition orders, depth 2) always complete with options off; plus random chains (1-3 base members of any archetype, 0-2 own members, any subset re-listed, all options)",
+        "refdefault_block": "members that are bare $refs to a root definition carrying a default: kind (pydantic 2 / pydantic-1 style / dataclass executed, msgspec read statically) x definition (integer, string, constrained string, nullable integer, false, 0, number, alias of a definition, array, dict) x collapse_root_models x reuse_model x own default (none / value / null) always complete with the referring schema as document root; x where the definition stands (root / before / after / other file of the input directory under definitions or as root schema - modular output / file outside the input) x second member using the definition x twin definition: quick a sixth + 150 random cases with spelling options, thorough all + 2500",
         "sibling_block": "every ordered pair of scalar member archetypes (null source x required/optional/default/null default) of one primitive type x dialect x strict-nullable x kind x layout (same class / one per schema); quick: a quarter of it, string only; plus random groups of 2-3 members (scalar, array, dict, union-typed) in all orders",
         "tier_covers": "all blocks exhaustively (spelling options, realisations and the non-enumerated dimensions of the union block drawn per vector)" if not quick else "stratified sample over the product of all dimensions + corpus + union core block + a quarter of the sibling block",
     }
-    ck.search_hooks += [search_refs, search_inherit, search_siblings, search_union, search_exhaustive]
+    ck.search_hooks += [search_refdefault, search_refs, search_inherit, search_siblings, search_union, search_exhaustive]
     known_findings(ck)
 
 
@@ -1337,6 +1357,10 @@ def replay(ck: Check, path: str) -> int:
         bad = "members" in r and (bad_order([h for _, h in r["members"]]) or r["loads"] != "ok")
         print("REPLAY-FAILS: member order / class creation" if bad else "replay: the oracle does not fail on this input")
         return 1 if bad else 0
+    if inp.get("refdefault"):
+        from . import c05_refdefault
+
+        return c05_refdefault.replay_case(ck, inp["refdefault"])
     if inp.get("inherit_group"):
         from . import c05_inherit
 
